@@ -31,7 +31,7 @@ func init() {
 			"ctx.File serves through a process-global FS instance; to keep episodes independent the same handler is exercised through ctx.FileFromFS with an identically configured per-episode FS",
 			"for syntactically invalid or multi-range Range headers any RFC-permitted answer is accepted (full 200, 206 of the first range, 416)",
 		},
-		RequiredProbes: []string{"range-closed", "range-open", "range-suffix", "range-unsatisfiable", "range-invalid", "range-multi", "empty-file", "big-file", "small-file", "head", "ims-304", "traversal", "index-file", "concurrent-same-file", "reader-stall", "client-rst", "cache-expired", "ctx-file-route", "dir-listing", "dir-listing-big", "compress-on", "gzip-response", "final-request", "file-modified-older", "file-modified-newer"},
+		RequiredProbes: []string{"range-closed", "range-open", "range-suffix", "range-unsatisfiable", "range-invalid", "range-multi", "range-overflow", "special-file-name", "empty-file", "big-file", "small-file", "head", "ims-304", "traversal", "index-file", "concurrent-same-file", "reader-stall", "client-rst", "cache-expired", "ctx-file-route", "dir-listing", "dir-listing-big", "compress-on", "gzip-response", "final-request", "file-modified-older", "file-modified-newer"},
 	}
 }
 
@@ -54,7 +54,11 @@ func c08LoadFiles() {
 	}
 	c08Files["/dir/index.html"] = []byte("<html>dir index</html>")
 	c08Files["/noindex/x.txt"] = []byte("xx")
-	c08DirEntries[""] = append(c08DirEntries[""], "dir", "noindex", "many")
+	// names that differ only in how a '+' or an escape in the request path is decoded
+	c08Files["/a+b.txt"] = []byte("file named a-plus-b")
+	c08Files["/a b.txt"] = []byte("file named a-space-b")
+	c08Files["/p%41q.txt"] = []byte("file named p-percent-4-1-q")
+	c08DirEntries[""] = append(c08DirEntries[""], "dir", "noindex", "many", "a+b.txt", "a b.txt")
 	c08DirEntries["/noindex"] = []string{"x.txt"}
 	for i := 0; i < c08ManyCount; i++ {
 		// a listing of this directory is larger than the small-file threshold
@@ -90,7 +94,7 @@ func c08Tree() string {
 		c08LoadFiles()
 		// one read-only tree shared by all worker processes, at a fixed path so that
 		// messages that mention file names are identical in every process
-		final := "/verif/.scratch/tree-c08-v2"
+		final := "/verif/.scratch/tree-c08-v3"
 		c08Root = filepath.Join(final, "root")
 		if _, err := os.Stat(filepath.Join(final, "ready")); err == nil {
 			return
@@ -257,6 +261,9 @@ var c08Ranges = []struct{ v, kind string }{
 	{"bytes=0-", "range-open"}, {"bytes=5-", "range-open"}, {"bytes=8192-", "range-open"}, {"bytes=-1", "range-suffix"}, {"bytes=-5", "range-suffix"}, {"bytes=-99999", "range-suffix"}, {"bytes=-0", "range-unsatisfiable"},
 	{"bytes=99999-", "range-unsatisfiable"}, {"bytes=99999-100000", "range-unsatisfiable"}, {"bytes=5-2", "range-invalid"}, {"bytes=", "range-invalid"}, {"bytes=-", "range-invalid"}, {"bytes=a-b", "range-invalid"},
 	{"bytes=99999999999999999999-", "range-invalid"}, {"items=0-1", "range-invalid"}, {"bytes=0-0,2-3", "range-multi"}, {"bytes=1-", "range-open"},
+	// numbers just above 2^64 and 2^63: a parser that wraps turns them into small offsets
+	{"bytes=18446744073709551617-", "range-overflow"}, {"bytes=0-18446744073709551618", "range-overflow"}, {"bytes=-18446744073709551617", "range-overflow"},
+	{"bytes=9223372036854775809-", "range-overflow"}, {"bytes=18446744073709551616-18446744073709551619", "range-overflow"}, {"bytes=36893488147419103233-", "range-overflow"},
 }
 
 func RunC08(ep *core.Episode) {
@@ -346,6 +353,12 @@ func RunC08(ep *core.Episode) {
 				ep.Probe("concurrent-same-file")
 			}
 			r.path = "/static" + r.file
+			if tp.Chance("specialname", 1, 8) {
+				// the path as sent -> the file it names (a '+' in a path is a plus; %2B is a plus; %20 is a space; %25 is a percent sign)
+				sp := [][2]string{{"/a+b.txt", "/a+b.txt"}, {"/a%2Bb.txt", "/a+b.txt"}, {"/a%20b.txt", "/a b.txt"}, {"/p%2541q.txt", "/p%41q.txt"}, {"/a%2bb.txt", "/a+b.txt"}}[tp.Choose("special", 5)]
+				r.path, r.file = "/static"+sp[0], sp[1]
+				ep.Probe("special-file-name")
+			}
 			rg := c08Ranges[tp.Choose("range", len(c08Ranges))]
 			r.rng, r.kind = rg.v, rg.kind
 			if r.kind != "none" {
@@ -380,7 +393,7 @@ func RunC08(ep *core.Episode) {
 					r.ims = c08MTime.Add(time.Duration(tp.Choose("imsd", 2)) * time.Hour).Format("Mon, 02 Jan 2006 15:04:05 GMT")
 				}
 			case 4: // the ctx.File route
-				if !strings.Contains(r.file[1:], "/") {
+				if !strings.Contains(r.file[1:], "/") && !strings.ContainsAny(r.file, " +%") {
 					r.path = "/file" + r.file
 					ep.Probe("ctx-file-route")
 				}
